@@ -105,7 +105,7 @@ def run(module, cfg=None, workers=1, timeout=600, env=None, extra=None, name=Non
     """
     cfg = cfg or (module + ".cfg")
     meta = _scratch(name or module)
-    cmd = ["java", "-XX:+UseParallelGC", "-Xmx" + heap, "-Xss16m",
+    cmd = ["java", "-XX:+UseParallelGC", "-Xmx" + heap, "-Xss64m",
            "-cp", JAR, "tlc2.TLC",
            "-workers", str(workers), "-metadir", meta, "-noGenerateSpecTE",
            "-config", cfg]
@@ -126,10 +126,18 @@ def run(module, cfg=None, workers=1, timeout=600, env=None, extra=None, name=Non
     r.cmd = " ".join(cmd)
     t0 = time.time()
     try:
-        p = subprocess.run(cmd, cwd=SPEC, env=e, stdout=subprocess.PIPE,
-                           stderr=subprocess.STDOUT, timeout=timeout)
-        out = p.stdout.decode("utf-8", "replace")
-        rc = p.returncode
+        for attempt in range(4):
+            p = subprocess.run(cmd, cwd=SPEC, env=e, stdout=subprocess.PIPE,
+                               stderr=subprocess.STDOUT, timeout=timeout)
+            out = p.stdout.decode("utf-8", "replace")
+            rc = p.returncode
+            # TLC 1.8 with many workers now and then dies of a Java StackOverflowError in its own machinery
+            # (seen on MC_Transport, about one run in fifteen, different point each time): a JVM-level accident,
+            # not a verdict - the run is repeated with a clean state directory
+            if rc != 0 and "Java StackOverflowError" in out and "is violated" not in out and attempt < 3:
+                shutil.rmtree(meta, ignore_errors=True)
+                continue
+            break
     except subprocess.TimeoutExpired as ex:
         out = (ex.stdout or b"").decode("utf-8", "replace")
         if not keep:
